@@ -130,8 +130,8 @@ CLAIMED['C16'] = dict(
          'returns (a run that cannot end with a call open is a violation), reconnect rate of callers (dated by the '
          'moment the rate limiter was consulted), reconnect callbacks exactly once per reconnect, healing and poll resumption after faults stop.',
     note='Trusted: simulation kernel, simulated TCP, scripted device. Bytes arriving after a command was sent cannot '
-         'be told from its reply by any implementation and are exempt. Known findings: is_connected set after a '
-         'concurrent close; two simultaneous reconnect attempts.',
+         'be told from its reply by any implementation and are exempt. Known finding: is_connected set after a '
+         'concurrent close.',
     design='6/C16')
 
 CLAIMED['C17'] = dict(
